@@ -255,6 +255,7 @@ package core
 //@   ensures [C02] ret1 != nil ==> (ret1.file == keyword.file && ret1.index == keyword.begin) || (ret1.file == core.scanner.file && ret1.index <= core.scanner.dataSize)
 //@   ensures [C08] ioCount != old(ioCount) ==> exists p string :: includeNameOK(p) && lastStat == pathJoin(pathDir(core.scanner.file.name), p)
 //@   ensures [C08] ret1 == nil ==> exists p string :: includeNameOK(p) && ret0 == pathJoin(pathDir(core.scanner.file.name), p) && lastStat == ret0
+//@   ensures [C17,C05] ret1 == nil ==> exists b []byte :: ret0 == pathJoin(pathDir(core.scanner.file.name), bstr(unesc(b)))
 
 // what the validator really guarantees (DESIGN 4.C08): not absolute, no backslash, no "./" or "/." anywhere
 //@ pred includeNameOK(s string) = len(s) > 0 && s[0] != '/' && !strcontains(s, "./") && !strcontains(s, "/.") && !strcontains(s, "\\")
